@@ -30,7 +30,7 @@ def scratch_copy(tag):
 
 
 def run_check(prop, d, tier, nproc, suite):
-    env = dict(os.environ, VERIF_REPO=str(d), VERIF_NPROC=str(nproc), PYTHONHASHSEED='0', PYTHONDONTWRITEBYTECODE='1')
+    env = dict(os.environ, VERIF_OUT=str(d / '.verif-out'), VERIF_REPO=str(d), VERIF_NPROC=str(nproc), PYTHONHASHSEED='0', PYTHONDONTWRITEBYTECODE='1')
     res = {}
     if suite:
         r = subprocess.run(['/venv/bin/python', '-m', 'pytest', '-q', '-x', '-p', 'no:cacheprovider', '--timeout=300'],
